@@ -481,10 +481,12 @@ def gen_c02_decls(rng, tier):
               ["W0", "W2"], ["W2", "W0"], ["W0", "lowercase", "trim"], ["trim", "lowercase", "W0"]]
     if tier == "quick":
         chains = chains[::1]
-    for ci, chain in enumerate(chains):
-        if len([c_ for c_ in chain if c_.startswith("W")]) > 1 and True:
-            pass
-        sitems = [[tid("with"), EQ, tfn(int(c_[1]), FORMS[ci % 5], "s")] if c_.startswith("W") else [tid(c_)] for c_ in chain]
+    # the same chains once more with the custom step written as a closure that leaves through an explicit
+    # `return` on inputs starting with a blank (same function, another spelling): the steps written after it
+    # must still run
+    chains = [(c_, False) for c_ in chains] + [(c_, True) for c_ in (["W1", "trim"], ["W2", "trim", "lowercase"], ["W1", "lowercase", "trim"], ["uppercase", "W2", "trim"])]
+    for ci, (chain, early) in enumerate(chains):
+        sitems = [[tid("with"), EQ, tfn(int(c_[1]), "r00" if early else FORMS[ci % 5], "s")] if c_.startswith("W") else [tid(c_)] for c_ in chain]
         if sum(1 for c_ in chain if c_.startswith("W")) > 1:
             continue            # two `with` sanitizers are refused (duplicate kind)
         d = b.add("String", [block("sanitize", sitems, trailing=bool(ci % 2)), D(["Debug"])], "sanorder")
@@ -660,4 +662,13 @@ def gen_c12_decls(rng, tier):
                         blocks.append(D(ds))
                         d = b.add(ty, blocks, "ok" if "finite" in vname else "traits:float_needs_finite")
                         d.has_finite = "finite" in vname
+                        d.must_refuse = False
+            # derive sets lacking a prerequisite: refused whatever the validators are (an implied Eq
+            # would escape the `finite` requirement)
+            for ds in (["Debug", "PartialEq", "PartialOrd", "Ord"], ["Debug", "Eq"], ["Debug", "PartialEq", "Eq", "Ord"], ["Debug", "Ord"]):
+                blocks = [block("validate", vs)] if vs else []
+                blocks.append(D(ds))
+                d = b.add(ty, blocks, "traits:float_derive_dependency")
+                d.has_finite = "finite" in vname
+                d.must_refuse = True
     return b.decls
